@@ -508,3 +508,101 @@ mod tests {
         quickcheck(prop as fn(_))
     }
 }
+
+/// Verification-only visibility shims (compiled only with `--cfg libp2p_verif`).
+///
+/// Mirrors the crate-private [`Message`] / [`Protocol`] types to a public enum and
+/// exposes the real `Message::encode` / `Message::decode` and the real [`MessageIO`]
+/// (length-delimited framing + message codec). No logic is re-implemented here.
+#[cfg(libp2p_verif)]
+pub mod verif {
+    use super::*;
+
+    /// Public mirror of [`Message`].
+    #[derive(Debug, Clone, PartialEq, Eq)]
+    pub enum VerifMsg {
+        Header,
+        Protocol(String),
+        Ls,
+        Protocols(Vec<String>),
+        Na,
+    }
+
+    fn to_real(m: &VerifMsg) -> Result<Message, ProtocolError> {
+        Ok(match m {
+            VerifMsg::Header => Message::Header(HeaderLine::V1),
+            VerifMsg::Protocol(p) => Message::Protocol(Protocol::try_from(p.as_str())?),
+            VerifMsg::Ls => Message::ListProtocols,
+            VerifMsg::Protocols(ps) => Message::Protocols(
+                ps.iter()
+                    .map(|p| Protocol::try_from(p.as_str()))
+                    .collect::<Result<Vec<_>, _>>()?,
+            ),
+            VerifMsg::Na => Message::NotAvailable,
+        })
+    }
+
+    fn from_real(m: Message) -> VerifMsg {
+        match m {
+            Message::Header(HeaderLine::V1) => VerifMsg::Header,
+            Message::Protocol(p) => VerifMsg::Protocol(p.as_ref().to_owned()),
+            Message::ListProtocols => VerifMsg::Ls,
+            Message::Protocols(ps) => {
+                VerifMsg::Protocols(ps.iter().map(|p| p.as_ref().to_owned()).collect())
+            }
+            Message::NotAvailable => VerifMsg::Na,
+        }
+    }
+
+    /// `Message::encode` (unframed). Fails only if a name is not a valid [`Protocol`].
+    pub fn encode(m: &VerifMsg) -> Result<Vec<u8>, ProtocolError> {
+        let mut buf = BytesMut::new();
+        to_real(m)?.encode(&mut buf);
+        Ok(buf.to_vec())
+    }
+
+    /// `Message::decode` (unframed).
+    pub fn decode(b: &[u8]) -> Result<VerifMsg, ProtocolError> {
+        Message::decode(Bytes::copy_from_slice(b)).map(from_real)
+    }
+
+    /// The real [`MessageIO`] over an arbitrary I/O resource, speaking [`VerifMsg`].
+    pub struct VerifMessageIO<R>(MessageIO<R>);
+
+    impl<R: AsyncRead + AsyncWrite + Unpin> VerifMessageIO<R> {
+        pub fn new(io: R) -> Self {
+            VerifMessageIO(MessageIO::new(io))
+        }
+    }
+
+    impl<R: AsyncWrite + Unpin> Sink<VerifMsg> for VerifMessageIO<R> {
+        type Error = ProtocolError;
+
+        fn poll_ready(mut self: Pin<&mut Self>, cx: &mut Context<'_>) -> Poll<Result<(), Self::Error>> {
+            Pin::new(&mut self.0).poll_ready(cx)
+        }
+
+        fn start_send(mut self: Pin<&mut Self>, item: VerifMsg) -> Result<(), Self::Error> {
+            let m = to_real(&item)?;
+            Pin::new(&mut self.0).start_send(m)
+        }
+
+        fn poll_flush(mut self: Pin<&mut Self>, cx: &mut Context<'_>) -> Poll<Result<(), Self::Error>> {
+            Pin::new(&mut self.0).poll_flush(cx)
+        }
+
+        fn poll_close(mut self: Pin<&mut Self>, cx: &mut Context<'_>) -> Poll<Result<(), Self::Error>> {
+            Pin::new(&mut self.0).poll_close(cx)
+        }
+    }
+
+    impl<R: AsyncRead + Unpin> Stream for VerifMessageIO<R> {
+        type Item = Result<VerifMsg, ProtocolError>;
+
+        fn poll_next(mut self: Pin<&mut Self>, cx: &mut Context<'_>) -> Poll<Option<Self::Item>> {
+            Pin::new(&mut self.0)
+                .poll_next(cx)
+                .map(|o| o.map(|r| r.map(from_real)))
+        }
+    }
+}
